@@ -173,6 +173,8 @@ func isIOErr(T *Terms, v ssa.Value, name string) bool {
 }
 
 func runC11(r *Run, p *Prog) {
+	// N8: the remote error of an error frame keeps its name unless it is one of the four org.varlink.service errors
+	siblingRules(r, p, "C12", []string{"X2"}, "N8")
 	ro := DiscoverRoles(p)
 	T := ro.T
 	cm := buildClientModel(p, ro)
